@@ -1,7 +1,8 @@
 """
 C14 — fn:path / node.path / etree_iter_paths identify each node uniquely.
 
- prove     : EPV.Props.C14 (path_selects_self, path_injective, etree_paths_agree, path_eq_spec, ...)
+ prove     : EPV.Props.C14 (path_selects_self, path_injective, paths_pairwise_distinct, path_eq_spec,
+             etree_paths_agree/complete/select_self, fn_path_fragment, pinned-tree counter-examples)
  correspond: generated XML trees (repeated names, namespaced names through several prefixes, default
              namespace declarations and un-declarations, PIs with arbitrary NCName targets incl.
              repeated targets / targets equal to element names / operator and function names,
@@ -13,8 +14,11 @@ C14 — fn:path / node.path / etree_iter_paths identify each node uniquely.
              plus etree_iter_paths(root element) (path string and what it selects from the root
              element), pairwise distinctness of the strings, XPath30Parser == XPath31Parser, and the
              paths of parent-less nodes.
- search    : exhaustive small trees (<= 6 nodes, two element names, two PI targets one of which
-             equals an element name, text, comment), lxml + ElementTree.
+ search    : exhaustive small trees (<= 5 nodes quick / <= 6 thorough, two element names, two PI targets one
+             of which equals an element name, text, comment), lxml + ElementTree, document / element / fragment.
+ tags      : every disagreement carries the ids of the repaired defects (F14a..F14e) whose trigger predicate
+             holds for the input (computed from the tree, never from the observed output); findings/C14.json
+             lists them all as fixed, so nothing is suppressed.
 """
 from __future__ import annotations
 
@@ -293,7 +297,28 @@ def node_kind(n) -> tuple:
     return ('?', type(n).__name__)
 
 
+class _Alarm(BaseException):
+    pass
+
+
 def run_impl(case, parsed):
+    """run_impl_inner under a 30 s alarm (a mutated implementation that loops must not hang the check)"""
+    import signal
+
+    def on_alarm(signum, frame):
+        raise _Alarm()
+    old = signal.signal(signal.SIGALRM, on_alarm)
+    signal.alarm(30)
+    try:
+        return run_impl_inner(case, parsed)
+    except _Alarm:
+        return {'recs': [], 'kinds': [], 'etree': [], 'problems': ['ERR:OTHER:Timeout(30s)']}
+    finally:
+        signal.alarm(0)
+        signal.signal(signal.SIGALRM, old)
+
+
+def run_impl_inner(case, parsed):
     """returns dict: recs (per node 4-tuple), kinds, etree (list of (idx, path, sel)), extra problems"""
     from elementpath import XPathContext, get_node_tree
     from elementpath.xpath30 import XPath30Parser
@@ -503,6 +528,8 @@ def compare(run: Run, cases: list, count=True) -> None:
             continue
         for pb in impl['problems']:
             run.disagree(Disagreement(base, pb, None, spec='no-problem', what='impl-problem', site='xpath_nodes'))
+        if impl['problems'] and not impl['kinds']:
+            continue
         if impl['kinds'] != kinds:
             run.disagree(Disagreement(base, json.dumps(impl['kinds'], default=str)[:400],
                                       json.dumps(kinds, default=str)[:400], what='tree-shape',
